@@ -25,6 +25,19 @@ pub fn block_on<F: Future>(fut: F) -> F::Output {
     panic!("future did not complete");
 }
 
+/// Polls at most `n` times: None when the future is still waiting (an idle peer).
+pub fn poll_n<F: Future>(fut: F, n: usize) -> Option<F::Output> {
+    let waker = unsafe { Waker::from_raw(raw_waker()) };
+    let mut cx = Context::from_waker(&waker);
+    let mut fut = Box::pin(fut);
+    for _ in 0..n {
+        if let Poll::Ready(v) = fut.as_mut().poll(&mut cx) {
+            return Some(v);
+        }
+    }
+    None
+}
+
 /// One scripted step of a reader.
 #[derive(Clone, Debug)]
 pub enum Step {
@@ -33,6 +46,8 @@ pub enum Step {
     Fail,
     /// fail with this error kind
     FailKind(std::io::ErrorKind),
+    /// the peer sends nothing more and keeps the connection open: every further read is Pending
+    Idle,
 }
 
 /// Delivers the scripted steps; a Data step larger than the caller's buffer is split.
@@ -51,6 +66,7 @@ impl futures_io::AsyncRead for ScriptReader {
             None | Some(Step::Eof) => Poll::Ready(Ok(0)),
             Some(Step::Fail) => Poll::Ready(Err(std::io::Error::new(std::io::ErrorKind::Other, "scripted"))),
             Some(Step::FailKind(k)) => Poll::Ready(Err(std::io::Error::new(k, "scripted"))),
+            Some(Step::Idle) => { self.steps.push_front(Step::Idle); Poll::Pending }
             Some(Step::Data(d)) => {
                 let n = d.len().min(buf.len());
                 buf[..n].copy_from_slice(&d[..n]);
